@@ -151,8 +151,16 @@ func (f *frame) enterLoop(b *ssa.BasicBlock, li *loopInfo, phiEntry map[*ssa.Phi
 	now2 := v.ctx.Fresh("now", SInt)
 	v.ctx.Assert(T(SBool, "(>= %s %s)", now2.S, f.cur.now.S))
 	st := f.cur.withNow(now2)
-	entryEnv := v.entryEnv()
-	fnLocs := v.modLocs(v.fc, entryEnv)
+	// what the loop may write in objects that exist before it (explicit `modifies` of the loop spec)
+	li.locs = nil
+	if li.spec != nil {
+		lenv := f.loopEnv(li, phiEntry, f.cur)
+		for _, cl := range li.spec.Clauses {
+			if cl.Kind == "modifies" {
+				li.locs = append(li.locs, v.modLocsOf(cl, lenv)...)
+			}
+		}
+	}
 	for _, name := range mods {
 		s, ok := v.arrSort[name]
 		if !ok {
@@ -165,8 +173,9 @@ func (f *frame) enterLoop(b *ssa.BasicBlock, li *loopInfo, phiEntry map[*ssa.Phi
 		a2 := v.ctx.Fresh(name, s)
 		v.arrAxioms(a2, s, now2)
 		st = st.with(name, a2)
-		// auto-invariant: the function-level frame (assumed here, re-proved at the back edge)
-		if fr := v.frameOf(name, s, fnLocs, a2); fr.S != "true" {
+		// auto-invariant: objects that existed before the loop and are outside the loop's
+		// modifies clause keep their value (assumed here, re-proved at the back edge)
+		if fr := v.loopFrame(name, s, li, a2); fr.S != "true" {
 			v.ctx.Assert(fr)
 		}
 	}
@@ -214,6 +223,29 @@ func firstPos(b *ssa.BasicBlock) token.Pos {
 		}
 	}
 	return token.NoPos
+}
+
+// loopFrame: objects that existed when the loop was entered and are outside the
+// loop's modifies clause have, in version a, the value they had at loop entry.
+func (v *FnVerifier) loopFrame(name string, s Sort, li *loopInfo, a Term) Term {
+	idx, _ := s.ArrParts()
+	if idx != SRef {
+		return TTrue
+	}
+	pre, ok := li.preState.arr[name]
+	if !ok {
+		pre = v.entryArr(name, s)
+	}
+	var ins []string
+	for _, ml := range li.locs {
+		for _, ar := range ml.arrs {
+			if ar.name == name {
+				ins = append(ins, inLoc(ml, ar, "r"))
+			}
+		}
+	}
+	return T(SBool, "(forall ((r Ref)) (! (=> (and (< (birth r) %s) (not (or %s false))) (= (select %s r) (select %s r))) :pattern ((select %s r))))",
+		li.preNow.S, strings.Join(ins, " "), a.S, pre.S, a.S)
 }
 
 // frameOf: "objects that existed at function entry and are outside the
@@ -284,8 +316,6 @@ func (f *frame) backEdge(from, h *ssa.BasicBlock) {
 		}
 	}
 	// re-establish the auto frame invariant
-	entryEnv := v.entryEnv()
-	fnLocs := v.modLocs(v.fc, entryEnv)
 	var goals []Term
 	for _, name := range li.modArrs {
 		s, ok := v.arrSort[name]
@@ -296,7 +326,7 @@ func (f *frame) backEdge(from, h *ssa.BasicBlock) {
 		if !ok {
 			continue
 		}
-		goals = append(goals, v.frameOf(name, s, fnLocs, cur))
+		goals = append(goals, v.loopFrame(name, s, li, cur))
 	}
 	if g := And(goals...); g.S != "true" {
 		v.oblige("inv-keep", fmt.Sprintf("%s/inv-keep#%d.frame", v.fc.Key, li.ord), nil, reach, g, v.pos(firstPos(h)), "objects outside the modifies clause are unchanged")
